@@ -116,6 +116,48 @@ func throngPlan(r *core.Rand) *Plan {
 }
 
 func (c *c06) Plan(seed uint64, tier string, worker, workers, idx int) *Plan {
+	p := c.plan(seed, tier, worker, workers, idx)
+	r := core.NewRand(core.Mix(seed, 0xca11, uint64(worker), uint64(idx)))
+	if !r.Chance(1, 14) {
+		return p
+	}
+	// "callback" history: every registration moves in front of the run (no caller takes the
+	// write lock while detections are under way) and the detectors consult the library themselves
+	var tasks [][]Op
+	for _, ops := range p.Tasks {
+		var keep []Op
+		for _, op := range ops {
+			switch op.Kind {
+			case "extend":
+				p.Pre = append(p.Pre, op)
+			case "extend-result":
+			default:
+				keep = append(keep, op)
+			}
+		}
+		if len(keep) > 0 {
+			tasks = append(tasks, keep)
+		}
+	}
+	if len(tasks) == 0 || len(p.Pre) == 0 {
+		return c.plan(seed, tier, worker, workers, idx)
+	}
+	p.Tasks = tasks
+	mark := func(ops []Op) {
+		for i := range ops {
+			if e := ops[i].Ext; e != nil && e.Pred.CallsBack == 0 && e.Pred.PanicPrefix == "" {
+				e.Pred.CallsBack = 1 + int(core.Mix(uint64(e.ID), seed)%4)
+			}
+		}
+	}
+	mark(p.Pre)
+	for _, ops := range p.Tasks {
+		mark(ops)
+	}
+	return p
+}
+
+func (c *c06) plan(seed uint64, tier string, worker, workers, idx int) *Plan {
 	if idx < 1000000 {
 		// the race phase starts with the systematic part: two callers detecting every
 		// entry of the repository's sample table at the same time
